@@ -85,10 +85,10 @@ def parse(output: str) -> dict:
     return res
 
 
-def cargo_kani(crate: str, harnesses: list[str], target: str, extra: list[str] = (), timeout=3000):
+def cargo_kani(crate: str, harnesses: list[str], target: str, extra: list[str] = (), timeout=3000, jobs: int = 8):
     env = dict(os.environ, CARGO_NET_OFFLINE="true", CARGO_TARGET_DIR=target)
     cmd = ["cargo", "kani", "-Z", "stubbing"] + [x for h in harnesses for x in ("--harness", h)] + \
-          ["-j", "8", "--output-format", "terse"] + list(extra)
+          (["-j", str(jobs)] if jobs > 1 else []) + ["--output-format", "terse"] + list(extra)
     t0 = time.time()
     try:
         p = subprocess.run(cmd, cwd=crate, env=env, capture_output=True, text=True, timeout=timeout)
@@ -99,23 +99,38 @@ def cargo_kani(crate: str, harnesses: list[str], target: str, extra: list[str] =
     return " ".join(cmd), out, time.time() - t0
 
 
-def playback(crate: str, target: str, harness: str) -> dict:
-    """concrete playback: generate the unit test for the failing harness in place and run it natively"""
-    cmd, out, _ = cargo_kani(crate, [harness], target, ["-Z", "concrete-playback", "--concrete-playback=inplace"], timeout=1200)
-    info = {"generated": "INFO: Now modifying the source code" in out or "concrete playback" in out.lower()}
-    env = dict(os.environ, CARGO_NET_OFFLINE="true", CARGO_TARGET_DIR=target)
-    p = subprocess.run(["cargo", "kani", "playback", "-Z", "concrete-playback", "--", "kani_concrete_playback"],
-                       cwd=crate, env=env, capture_output=True, text=True, timeout=1200)
-    txt = p.stdout + p.stderr
-    info["native_test_failed"] = ("test result: FAILED" in txt) or ("panicked at" in txt)
-    info["native_output"] = "\n".join(l for l in txt.splitlines() if "panicked" in l or "assertion" in l or "test " in l)[-1500:]
-    # the generated test (concrete input bytes)
-    for root, _, files in os.walk(os.path.join(crate, "src")):
-        for fn in files:
-            src = open(os.path.join(root, fn)).read()
-            m = re.search(r"#\[test\]\s*fn kani_concrete_playback_" + re.escape(harness) + r".*?\n}\n", src, flags=re.S)
-            if m:
-                info["test"] = m.group(0)[:3000]
+def playback(run, crate: str, target: str, harness: str) -> dict:
+    """concrete playback: let Kani print the concrete values of the failing trace (one little-endian byte vector per
+    kani::any()), then run the SAME harness natively against the real code on those values (native/main.rs kani_replay)"""
+    cmd, out, _ = cargo_kani(crate, [harness], target, ["-Z", "concrete-playback", "--concrete-playback=print"], timeout=1800, jobs=1)
+    m = re.search(r"let concrete_vals: Vec<Vec<u8>> = vec!\[(.*?)\];\s*kani::concrete_playback_run", out, flags=re.S)
+    info = {"kani_cmd": cmd}
+    if not m:
+        info["note"] = "kani printed no concrete values"
+        return info
+    vals, comments = [], []
+    for line in m.group(1).splitlines():
+        line = line.strip()
+        if line.startswith("//"):
+            comments.append(line[2:].strip())
+        mm = re.match(r"vec!\[([0-9, ]*)\],?", line)
+        if mm:
+            vals.append([int(x) for x in mm.group(1).split(",") if x.strip()])
+    info["concrete_values"] = [{"bytes_le": v, "as": c} for v, c in zip(vals, comments + [""] * len(vals))]
+    from . import native
+    binp = native.build(run)
+    if not binp:
+        info["note"] = "native replay build failed"
+        return info
+    hexs = ";".join("".join(f"{b:02x}" for b in v) for v in vals)
+    p = subprocess.run([binp, "kani_replay", harness, hexs], capture_output=True, text=True, timeout=600)
+    try:
+        r = json.loads(p.stdout.strip().splitlines()[-1])
+    except Exception:
+        r = {"reproduced": False, "note": "replay runner failed: " + p.stderr[-300:]}
+    info["native_replay"] = r
+    info["native_test_failed"] = bool(r.get("reproduced"))
+    info["replay_cmd"] = f"verif-native-runner kani_replay {harness} {hexs}"
     return info
 
 
@@ -163,7 +178,8 @@ def run_for(run):
         else:
             pb = {}
             try:
-                pb = playback(crate, target, h)
+                run._kani_playbacks = getattr(run, "_kani_playbacks", 0) + 1
+                pb = playback(run, crate, target, h) if run._kani_playbacks <= 2 else {"note": "playback limited to the first two failing harnesses of a run"}
             except Exception as e:      # playback is best effort; the violation is reported either way
                 pb = {"error": str(e)}
             os.makedirs(os.path.join(VERIF, "replays"), exist_ok=True)
